@@ -47,7 +47,7 @@ __gmp_doprnt_integer (const struct doprnt_funs_t *funs,
 {
   int         retval = 0;
   int         slen, justlen, showbaselen, sign, signlen, slashlen, zeros;
-  int         justify, den_showbaselen;
+  int         justify, den_showbaselen, zero_skipped;
   const char  *slash, *showbase;
 
   /* '+' or ' ' if wanted, and don't already have '-' */
@@ -60,8 +60,12 @@ __gmp_doprnt_integer (const struct doprnt_funs_t *funs,
   signlen = (sign != '\0');
 
   /* if the precision was explicitly 0, print nothing for a 0 value */
+  zero_skipped = 0;
   if (*s == '0' && p->prec == 0)
-    s++;
+    {
+      s++;
+      zero_skipped = 1;
+    }
 
   slen = strlen (s);
   slash = strchr (s, '/');
@@ -83,11 +87,19 @@ __gmp_doprnt_integer (const struct doprnt_funs_t *funs,
       || (p->showbase == DOPRNT_SHOWBASE_NONZERO && slash[1] == '0'))
     den_showbaselen = 0;
 
-  if (p->showbase == DOPRNT_SHOWBASE_NONZERO && s[0] == '0')
+  /* no prefix on a zero value; as in C, a zero printed as nothing still gets
+     the octal "0" but not "0x" */
+  if (p->showbase == DOPRNT_SHOWBASE_NONZERO
+      && (s[0] == '0' || (zero_skipped && p->base != 8)))
     showbaselen = 0;
 
   /* the influence of p->prec on mpq is currently undefined */
   zeros = MAX (0, p->prec - slen);
+
+  /* as in C, the "0" octal prefix only has to make the first digit a zero,
+     which zeros from the precision already do */
+  if (zeros > 0 && p->base == 8 && slash == NULL)
+    showbaselen = 0;
 
   /* space left over after actual output length */
   justlen = p->width
